@@ -3,7 +3,7 @@
 
 usage: try_mutant.py <Cxx> <file-relative-to-repo> <old> <new> [--tier quick]
        try_mutant.py <Cxx> --patch <patch.diff>
-Never leaves /repo modified (git checkout -- . in a finally block); does not rewrite evidence.
+Works in a scratch git worktree of /repo's HEAD under /tmp (removed afterwards); checks run with LIAN_REPO pointing at it; does not rewrite evidence.
 """
 import os
 import subprocess
@@ -21,10 +21,10 @@ def main():
         i = args.index("--tier")
         tier = args[i + 1]
         del args[i:i + 2]
-    dirty = subprocess.run(["git", "-C", REPO, "status", "--porcelain"], capture_output=True, text=True).stdout.strip()
-    if dirty:
-        print("refusing: /repo has uncommitted changes:\n" + dirty)
-        return 3
+    wt = "/tmp/lianmut-%d" % os.getpid()
+    subprocess.run(["git", "-C", "/repo", "worktree", "add", "-q", "--detach", wt, "HEAD"], check=True)
+    global REPO
+    REPO = wt
     try:
         if args[1] == "--patch":
             r = subprocess.run(["git", "-C", REPO, "apply", args[2]])
@@ -44,6 +44,7 @@ def main():
             open(path, "w").write(s)
         env = dict(os.environ)
         env["VERIF_NO_EVIDENCE"] = "1"
+        env["LIAN_REPO"] = wt
         p = subprocess.run(["/venv/bin/python", os.path.join(VERIF, "check.py"), prop, "--tier", tier],
                            env=env, capture_output=True, text=True)
         lines = [l for l in (p.stdout + p.stderr).splitlines() if "conda" not in l]
@@ -52,7 +53,7 @@ def main():
         print("MUTANT exit=%d => %s" % (p.returncode, {0: "MISSED", 1: "CAUGHT", 2: "HARNESS-ERROR"}.get(p.returncode, "?")))
         return 0
     finally:
-        subprocess.run(["git", "-C", REPO, "checkout", "--", "."])
+        subprocess.run(["git", "-C", "/repo", "worktree", "remove", "--force", wt])
 
 
 if __name__ == "__main__":
